@@ -238,7 +238,13 @@ func edgeRecord(o *Out, gb *seqio.GenBank, i int) string {
 		f.Source.Name = "O" + rstr(r, alWord, 20, 30) + " " + rstr(r, alWord, 20, 30) + " " + rstr(r, alWord, 20, 40)
 		return "long-organism"
 	case 2:
-		gb.Table[0].Key = []string{"5'UTR", "3'UTR", "D-loop", "-10_signal", "-35_signal"}[r.Intn(5)]
+		// at any position of the table: the first key line and the later ones are read by different parsers
+		for len(gb.Table) < 3 {
+			gb.Table = append(gb.Table, rfeature(o, gb.Len()))
+		}
+		keys := []string{"5'UTR", "3'UTR", "D-loop", "-10_signal", "-35_signal"}
+		gb.Table[r.Intn(len(gb.Table))].Key = keys[r.Intn(5)]
+		gb.Table[len(gb.Table)-1].Key = keys[r.Intn(5)]
 		return "key-punct"
 	case 3:
 		gb.Table[0].Props.Add("note", "the \"quoted\" word "+rstr(r, alText, 0, 20))
